@@ -299,26 +299,27 @@ def run(ctx):
                     raise AnalysisError('unrecognised construct: filter arm test %s' % U(t.stmt))
                 named_arms.add(nm)
 
-    def operand_kind(expr, node):
-        if isinstance(expr, ast.Name) and expr.id == valv:
-            ds = rd.values(node, valv)
+    def operand_kind(expr, node, depth=0):
+        """wrapper: the decoded attribute value object of the request; raw: its .value; dict / raw-element: built / iterated locally.  Copies of the
+        request value held in other locals (a helper parameter that was renamed when the helper was expanded) are followed through their definitions."""
+        if depth > 8:
+            return 'other'
+        if isinstance(expr, ast.Attribute) and U(expr) == '%s.attribute_value' % pattr:
+            return 'wrapper'
+        if isinstance(expr, ast.Attribute) and expr.attr == 'value' and isinstance(expr.value, ast.Name):
+            return 'raw' if operand_kind(expr.value, node, depth + 1) == 'wrapper' else 'other'
+        if isinstance(expr, ast.Dict):
+            return 'dict'
+        if isinstance(expr, ast.Name):
             ks = set()
-            for d in ds:
-                if isinstance(d, ast.AST) and U(d) == '%s.attribute_value' % pattr:
-                    ks.add('wrapper')
-                elif isinstance(d, ast.AST) and U(d) == '%s.value' % valv:
-                    ks.add('raw')
+            for var, d, dn in rd.reaching(node, expr.id):
+                if isinstance(d, tuple) and d[0] == 'iter':
+                    ks.add('raw-element')
+                elif isinstance(d, ast.AST) and dn is not None:
+                    ks.add(operand_kind(d, dn, depth + 1))
                 else:
                     ks.add('other')
-            return next(iter(ks)) if len(ks) == 1 else 'mixed'
-        if isinstance(expr, ast.Attribute) and isinstance(expr.value, ast.Name) and expr.value.id == valv and expr.attr == 'value':
-            return 'raw' if operand_kind(expr.value, node) == 'wrapper' else 'other'
-        if isinstance(expr, ast.Name):
-            ds = rd.values(node, expr.id)
-            if ds and all(isinstance(d, ast.Dict) for d in ds):
-                return 'dict'
-            if ds and all(isinstance(d, tuple) and d[0] == 'iter' for d in ds):
-                return 'raw-element'
+            return next(iter(ks)) if len(ks) == 1 else ('mixed' if ks else 'other')
         return 'other'
     n_cmp = 0
     for t in tests:
